@@ -226,3 +226,61 @@ Proof.
   rewrite !wbyte.
   change 8 with (Z.of_N 8). rewrite zn_wrap_u. subst u. reflexivity.
 Qed.
+
+(* ---- BitSet: VarInt(len(b)).WriteTo(w), then `for i := range b { Long(b[i]).WriteTo(w) }` *)
+Definition longimg (z : Z) : list Z := map Z.of_N (be 8 (u64 z)).
+
+Lemma skipn_nth_cons (b : list Z) i : (i < length b)%nat -> skipn i b = nth i b 0 :: skipn (S i) b.
+Proof.
+  revert i. induction b as [|x b IH]; intros i H; [cbn in H; lia|].
+  destruct i as [|i]; [reflexivity|]. cbn [skipn nth]. apply IH. cbn in H. lia.
+Qed.
+
+Lemma bitset_wloop (b : list Z) : Z.of_nat (length b) < 2 ^ 59 -> forall k i out n,
+  (i + k = length b)%nat -> 0 <= n -> n + 8 * Z.of_nat k < 2 ^ 63 ->
+  packet_BitSet_WriteTo_io_loop1 b k (Z.of_nat i) out n
+  = ((out ++ concat (map longimg (skipn i b)))%list, n + 8 * Z.of_nat k).
+Proof.
+  intros Hb. change (2 ^ 59) with 576460752303423488 in Hb.
+  induction k as [|k IH]; intros i out n Hik Hn Hs; change (2 ^ 63) with 9223372036854775808 in Hs.
+  - cbn [packet_BitSet_WriteTo_io_loop1]. replace i with (length b) by lia. rewrite skipn_all. cbn [map concat].
+    rewrite app_nil_r. f_equal. lia.
+  - cbn [packet_BitSet_WriteTo_io_loop1]. rewrite tie_Long_write. unfold wimg, w_long, wbytes. cbn [fst snd].
+    rewrite u64_wrap_s. unfold znth. rewrite Nat2Z.id.
+    change (Z.of_N (lenN (be 8 (u64 (nth i b 0))))) with 8.
+    rewrite (wrap_s_id 64 (Z.of_nat i + 1)) by (change (2 ^ (64 - 1)) with 9223372036854775808; lia).
+    rewrite (wrap_s_id 64 (n + 8)) by (change (2 ^ (64 - 1)) with 9223372036854775808; lia).
+    replace (Z.of_nat i + 1) with (Z.of_nat (S i)) by lia.
+    rewrite IH by (change (2 ^ 63) with 9223372036854775808; lia).
+    rewrite (skipn_nth_cons b i) by lia. cbn [map concat]. rewrite <- app_assoc. f_equal. lia.
+Qed.
+
+Lemma w_seq_longs zs : w_seq (fun x => w_long (zof x)) (map VZ zs)
+  = (concat (map (fun z => be 8 (u64 z)) zs), (8 * lenN zs)%N).
+Proof.
+  induction zs as [|z zs IH]; [reflexivity|].
+  cbn [map w_seq fold_right concat]. fold (w_seq (fun x => w_long (zof x)) (map VZ zs)). rewrite IH.
+  unfold wcat, w_long, wbytes. cbn [fst snd zof]. f_equal. rewrite lenN_cons.
+  change (lenN (be 8 (u64 z))) with 8%N. lia.
+Qed.
+
+Lemma concat_map_map (zs : list Z) : concat (map longimg zs) = map Z.of_N (concat (map (fun z => be 8 (u64 z)) zs)).
+Proof. induction zs as [|z zs IH]; [reflexivity|]. cbn [map concat]. rewrite map_app, IH. reflexivity. Qed.
+
+Lemma tie_BitSet_write zs sp : (lenN zs < 2 ^ 59)%N ->
+  packet_BitSet_WriteTo_io zs = wimg (wr TBitSet (VList (map VZ zs) sp)).
+Proof.
+  intros H. change (2 ^ 59)%N with 576460752303423488%N in H.
+  assert (Hl : Z.of_nat (length zs) < 2 ^ 59) by (unfold lenN in H; change (2 ^ 59) with 576460752303423488; lia).
+  unfold packet_BitSet_WriteTo_io. cbv zeta. rewrite tie_VarInt_write.
+  unfold wimg at 1, w_varint, wbytes. cbn [fst snd app]. rewrite write32_wrap_s.
+  pose proof (write32_len5 (zlen zs)) as L5.
+  assert (Ez : zlen zs = Z.of_nat (length zs)) by (unfold zlen, lenN; lia).
+  replace (Z.to_nat (zlen zs - 0)) with (length zs) by lia.
+  change 0 with (Z.of_nat 0) at 1.
+  rewrite (bitset_wloop zs Hl (length zs) 0) by (change (2 ^ 63) with 9223372036854775808; lia).
+  cbn [skipn]. cbn [wr list_of fst]. unfold wimg, wcat. rewrite w_seq_longs. cbn [fst snd].
+  assert (Em : lenN (map VZ zs) = lenN zs) by (unfold lenN; rewrite map_length; reflexivity). rewrite Em.
+  unfold w_varint, wbytes. cbn [fst snd]. fold (zlen zs).
+  rewrite map_app, concat_map_map. f_equal. f_equal. unfold lenN in *. lia.
+Qed.
